@@ -312,6 +312,18 @@ func wrapSsc0(sscLen int, kind int, rnd *rand.Rand) []byte {
 	switch kind % 4 {
 	case 1:
 		rnd.Read(b)
+		if rnd.Intn(3) != 0 {
+			// a carry across k low-order octets inside the run (the counter is ONE big-endian number of
+			// sscLen octets: 8 for 3DES, 16 for AES), the octet above them not FF so that the carry stops there
+			k := 1 + rnd.Intn(sscLen-1)
+			for i := sscLen - k; i < sscLen; i++ {
+				b[i] = 0xFF
+			}
+			b[sscLen-1] = 0xFD + byte(rnd.Intn(2))
+			if b[sscLen-k-1] == 0xFF {
+				b[sscLen-k-1] = 0x7F
+			}
+		}
 	case 2: // wrap inside the run
 		for i := range b {
 			b[i] = 0xFF
